@@ -532,7 +532,7 @@ func ruleForInReference(c *Ctx, r *R) {
 }
 
 func init() {
-	register(&Rule{ID: "OWN-rawread", Props: []string{"C07"}, Min: 2,
+	register(&Rule{ID: "OWN-rawread", Props: []string{"C07"}, Min: 1,
 		Doc: "O (ES5 8.12.1 / 8.12.2 and the exotic [[GetOwnProperty]] of String objects 15.5.5.2, arguments objects 10.6 and the Go-backed classes): the raw reader of an object's property table (the method of *object that returns (property, bool) from the table) is what the *ordinary* [[GetOwnProperty]] is built on; an object of another class answers [[GetOwnProperty]] itself. So the raw reader is only ever applied to the object a class function was handed (its own *object parameter) - never to an object it reached by following a prototype link or any other field, whose class may be a different one. A prototype walk that reads the tables directly loses the index properties of a String prototype and the mapped arguments (`Object.create(new String('abc'))[1]`)",
 		Run: ruleOwnRawRead})
 }
